@@ -63,3 +63,15 @@ def match_d8(pid, case, d):
     if pid == "C12":
         return d["kind"] == "dtype-opaque" and "object" in d["observed"]
     return d["kind"] in ("d8-object-array",)
+
+
+D9_WHERE = re.compile(r"^/metadata/attitude/(attitude|rates)#time$")
+DAY_NS = 86_400 * 10**9
+
+
+@matcher("D9")
+def match_d9(pid, case, d):
+    if not D9_WHERE.match(d["where"]) or d["kind"] != "value":
+        return False
+    ctx = d.get("context", {})
+    return ctx.get("all_deltas_ns") == [DAY_NS]
